@@ -119,7 +119,7 @@ Proof. exact user_function_correct_xls. Qed.
    CONVERT with 2 / 1 / 3 parameters, formulas with PtgAttrSpace in front of the first operand *)
 Example C14_repaired_witnesses_nonvacuous :
   let xenv := {| xe_sheets := []; xe_names := [lit "_xlfn.CONCAT"]; xe_xtis := []; xe_base := None |} in
-  let benv := {| be_sheets := []; be_names := [lit "_xlfn.CONCAT"] |} in
+  let benv := {| be_sheets := []; be_names := [lit "_xlfn.CONCAT"]; be_base := None |} in
   let sf := fun _ : N => @nil N in
   xlsb_parse_formula sf benv [0x23; 1; 0; 0; 0; 0x17; 1; 0; 65; 0; 0x19; 0x40; 0; 1; 0x17; 1; 0; 98; 0; 0x42; 3; 255; 0]
     = Ok (lit "_xlfn.CONCAT(""A"",""b"")") /\
@@ -147,7 +147,7 @@ Proof. exact repaired_witnesses. Qed.
    of the proved grammar) *)
 Example C14_former_known_witnesses_nonvacuous :
   let env := {| xe_sheets := []; xe_names := []; xe_xtis := []; xe_base := None |} in
-  let benv := {| be_sheets := []; be_names := [] |} in
+  let benv := {| be_sheets := []; be_names := []; be_base := None |} in
   xls_parse_formula (fun _ => []) env (frame_xls (encode_xls (EStr true [97; 98]))) = Ok (lit """ab""") /\
   xls_parse_formula (fun _ => []) env (frame_xls (encode_xls (EStr false [97; 34; 98]))) = Ok (lit """a""""b""") /\
   xlsb_parse_formula (fun _ => []) benv (encode_xlsb (EStr false [97; 34; 98])) = Ok (lit """a""""b""") /\
@@ -252,7 +252,7 @@ Proof. exact name_index_stable_xls. Qed.
 Theorem C14_ptgname_is_ith_record_xlsb : forall show_f64 ext ds r i d k,
   spec_names_xlsb show_f64 ext [] ds = Ok r -> nth_error ds i = Some d ->
   N.of_nat i + 1 < 4294967296 ->
-  xlsb_parse_formula show_f64 {| be_sheets := ext; be_names := map fst r |}
+  xlsb_parse_formula show_f64 {| be_sheets := ext; be_names := map fst r; be_base := None |}
     (encode_xlsb (EName k (N.of_nat i + 1))) = Ok (nr_name d).
 Proof. exact ptgname_is_ith_record_xlsb. Qed.
 
@@ -267,7 +267,7 @@ Proof. exact ptgname_is_ith_record_xls. Qed.
 (* 3-D references go through the XTI table: entry i names the sheet its firstSheet field points to *)
 Theorem C14_sheet3d_through_xti_xlsb : forall sheets xtis i x nm,
   nth_error xtis i = Some x ->
-  spec_sheet_xlsb {| be_sheets := spec_extern_xlsb sheets xtis; be_names := nm |} (N.of_nat i)
+  spec_sheet_xlsb {| be_sheets := spec_extern_xlsb sheets xtis; be_names := nm; be_base := None |} (N.of_nat i)
   = resolve_xti sheets (snd (fst x)).
 Proof. exact sheet3d_through_xti_xlsb. Qed.
 
